@@ -49,6 +49,26 @@ SHORT = {
  'C16-4': 'single-frame fast path removes gravity with the initial instead of the integrated rotation',
  'C19-3': 'timestamp association by searchsorted: first stamp inside the window instead of the nearest',
  'C19-4': 'geodesic_loss closed form whose small-angle branch drops the factor 2',
+ 'C03-3': 'SO3_Mul multiplies the product by sign(w) (zero quaternion for exact half-turn products)',
+ 'C03-4': 'RxSO3/Sim3 product scale clamped at eps instead of tiny (products of very small scales)',
+ 'C06-3': 'calcQ takes a closed-form fast path if ANY item is regular (NaN for zero-rotation items of a mixed batch)',
+ 'C06-4': 'matching_time_indices adds the offset in place (caller\'s float64 stamps shifted)',
+ 'C08-3': 'Adaptive clamps the damping with the optimizer\'s min/max instead of its own',
+ 'C08-4': 'LM restores rejected trials from a backup that aliases the parameter after the first restore',
+ 'C09-3': 'auto-selected correctors skip None kernels (Huber correction applied to the un-kernelled residual of [None, Huber])',
+ 'C09-4': 'PseudoHuber asserts on the hoisted sqrt argument (inputs in [-delta^2, 0) accepted)',
+ 'C12-3': 'cumops_ as a slice scan on transpose(0, dim) written back with movedim (wrong for dim >= 2)',
+ 'C12-4': 'cumprod(left=False) on plain tensors folds with * instead of @ (shared lambda table)',
+ 'C14-3': 'LQR skips the nominal roll-out when x_init/u_traj are the same tensor objects as last call (buffer updated in place)',
+ 'C14-4': 'reported LQR cost computed from the control increment instead of the control (non-zero nominal inputs)',
+ 'C15-3': 'NLS.c1/c2 subtract in place from the cached reference values (second read drifts)',
+ 'C15-4': 'time advanced inside forward() instead of by the forward hook (subclasses overriding forward never advance)',
+ 'C17-3': 'EPnP: constructor intrinsics take precedence over the ones passed to forward()',
+ 'C17-4': 'ICP resets its stepper in __init__ only (second call on the same module returns init)',
+ 'C18-3': 'nbr_filter excludes coincident points from the neighbour count (dist > 0)',
+ 'C18-4': 'voxel_filter keys voxels by a float row-major index (float32 collisions on grids > 2^24 cells)',
+ 'C20-3': 'ReduceToBason budget test == instead of >= (never hit after MPC decrements max_steps to 0)',
+ 'C20-4': 'StopOnPlateau re-arms _continual on every call (continual() true again after a stop)',
 }
 rows = ['| change | what it does | run against | quick check |', '|---|---|---|---|']
 names = sorted(d for d in os.listdir(os.path.join(V, 'seeded')) if os.path.isdir(os.path.join(V, 'seeded', d)))
